@@ -8,6 +8,7 @@ import Cose.Driver.EcdhOps
 import Cose.Driver.MsgOps
 import Cose.Driver.DecOps
 import Cose.Driver.IanaOps
+import Cose.Driver.ApiOps
 /-!
 Line-protocol driver: one operation per input line, one answer per output line.
 `<family>.<op> arg…` → answer.  Unknown operations answer `unknown-op` (never a default value).
@@ -21,7 +22,7 @@ def lastSegment (ts : List String) : List String :=
 def answerToks : List String → String
   | [] => ""
   | op :: args =>
-    match (Cwt.dispatch op args <|> CborOps.dispatch op args <|> MapOps.dispatch op args <|> PrimOps.dispatch op args <|> KeyOps.dispatch op args <|> SigOps.dispatch op args <|> EcdhOps.dispatch op args <|> MsgOps.dispatch op args <|> DecOps.dispatch op args <|> IanaOps.dispatch op args) with
+    match (Cwt.dispatch op args <|> CborOps.dispatch op args <|> MapOps.dispatch op args <|> PrimOps.dispatch op args <|> KeyOps.dispatch op args <|> SigOps.dispatch op args <|> EcdhOps.dispatch op args <|> MsgOps.dispatch op args <|> DecOps.dispatch op args <|> IanaOps.dispatch op args <|> ApiOps.dispatch op args) with
     | some r => r
     | none => "unknown-op"
 
